@@ -355,6 +355,41 @@ def gen_chistory(rng, cfg, maxlen=30):
     return ops
 
 
+def directed_chistory(rng):
+    """Buffered batches with one doomed put (duplicate / oversize key) at a random position, followed by the
+    operations that surface the late failure and by reads of every listed key.  Random generation almost never
+    lines these up."""
+    bs = rng.choice([10 ** 6, 10 ** 6, 40])
+    cfg = [(bs, False)] + ([(rng.choice(BUFS), rng.random() < 0.3)] if rng.random() < 0.5 else [])
+    good = rng.sample(["a", "b", "ab", "c", "d", "e"], rng.randint(2, 5))
+    pre = good[:rng.randint(0, 1)]
+    batch = good[len(pre):]
+    V = lambda: Val(rng.randrange(256), rng.choice([0, 1, 3, 17]))
+    ops = []
+    if pre:
+        ops += [("beginw", 0)] + [("put", 0, k, V()) for k in pre] + [("endw", 0)]
+    ops.append(("beginw", 0))
+    doomed = rng.choice(["dup-file", "dup-queue", "oversize", "none"])
+    pos = rng.randrange(len(batch) + 1)
+    seq = [("put", 0, k, V()) for k in batch]
+    if doomed == "dup-file" and pre:
+        seq.insert(pos, ("put", 0, pre[0], V()))
+    elif doomed == "dup-queue" and batch:
+        seq.insert(max(pos, 1), ("put", 0, batch[0], V()))
+    elif doomed == "oversize":
+        seq.insert(pos, ("put", 0, "K" * 256, V()))
+    ops += seq
+    ops.append(rng.choice([("flush", 0), ("get", 0, batch[-1]), ("keys", 0)]))
+    ops.append(("keys", 0))
+    for k in rng.sample(pre + batch, len(pre + batch)):
+        ops.append(("get", 0, k))
+    ops += [("keys", 0), ("endw", 0)]
+    if len(cfg) > 1:
+        ops += [("beginr", 1), ("keys", 1)] + [("get", 1, k) for k in pre + batch] + [("endr", 1)]
+    ops += [("beginw", 0), ("keys", 0)] + [("get", 0, k) for k in batch[:2]] + [("endw", 0)]
+    return ops, cfg
+
+
 def bop_coq(o):
     k = o[0]
     if k in ("beginw", "endw", "beginr", "endr", "keys", "flush"):
@@ -380,7 +415,7 @@ def cdrive(path, ops, cfg, fault=None):
     res, cops, viol = [], [], []
     model = {}            # oracle: abstract map, maintained while every put is written through immediately
     exact = True          # False once a put was left in a buffer (oracle then only checks the final file)
-    pending_ok = []       # puts that returned OK while buffered
+    late = []             # gets of listed keys that failed because a buffered put failed late (known finding)
 
     def classify(e):
         if isinstance(e, UnsupportedOperation): return "(BErr BUnsupported)"
@@ -418,11 +453,17 @@ def cdrive(path, ops, cfg, fault=None):
                     model[o[2]] = o[3].b
             elif k == "get":
                 listed = cms[i] is not None and be._state == "writing" and o[2] in c.keys()
+                # a buffered put that is bound to fail (duplicate / oversize key) surfaces at the flush this get triggers
+                fkeys = {x.decode() for x in be._ukvfile.keys()} if hasattr(be, "_ukvfile") else set()
+                qk = [x for x, _ in be._write_queue]
+                doomed = any(x in fkeys or len(x.encode()) > 255 for x in qk) or len(set(qk)) != len(qk)
                 try:
                     v = c[o[2]]
                 except Exception as e:
-                    if listed and exact:
+                    if listed and not doomed:
                         viol.append(("C02:collection:listed-key-unreadable", f"inside a writing session key {o[2][:8]!r} is listed but get raised {type(e).__name__}"))
+                    elif listed and doomed:
+                        late.append(o[2])
                     raise
                 r = "(BVal " + (cq_bytes(v) if len(v) <= 24 else _name_val(v)) + ")"
                 if exact and model.get(o[2]) != v:
@@ -458,7 +499,7 @@ def cdrive(path, ops, cfg, fault=None):
         viol.append(("C02:collection:file-corrupt", "final file has a torn tail or duplicate keys"))
     if exact and {k.decode(): v for k, v, _, _ in recs} != model:
         viol.append(("C02:collection:final-file-differs", "records in the final file are not exactly the successful puts"))
-    return dict(results=res, ops=cops, final=final, init=init, oracle=viol)
+    return dict(results=res, ops=cops, final=final, init=init, oracle=viol, late=late)
 
 
 def bcase_coq(d, cfg):
